@@ -66,10 +66,9 @@ func NewYAMLAccountManager(accountDir string) (*YAMLAccountManager, error) {
 		} else if wantPath := filepath.Join(accountDir, path.Join("/", account.Login)+".yaml"); filePath != wantPath {
 			// A rename of this account was interrupted after its new content was written and before the file was moved.
 			// Finish the move, so that later updates and deletes of the account find its file.
+			// Best effort: an account that cannot be moved (its login has no valid file name) still loads.
 			if _, err := os.Stat(wantPath); os.IsNotExist(err) {
-				if err := os.Rename(filePath, wantPath); err != nil {
-					return nil, fmt.Errorf("complete interrupted account rename: %v", err)
-				}
+				_ = os.Rename(filePath, wantPath)
 			}
 		}
 
@@ -122,12 +121,21 @@ func (am *YAMLAccountManager) Update(account hotline.Account, newLogin string) e
 	// Replace the content of the existing file atomically, then move the file if the login has changed.  Accounts are
 	// keyed by the Login stored in the file, so a crash at any point leaves either the complete old or the complete
 	// new account behind, never a truncated file.
+	var previous []byte
+	if oldLogin != newLogin {
+		previous, _ = os.ReadFile(oldPath)
+	}
+
 	if err := writeFileAtomic(oldPath, out); err != nil {
 		return fmt.Errorf("error writing account file: %w", err)
 	}
 
 	if oldLogin != newLogin {
 		if err := os.Rename(oldPath, newPath); err != nil {
+			// The new login has no usable file name: put the old record back so that file and memory still agree.
+			if previous != nil {
+				_ = writeFileAtomic(oldPath, previous)
+			}
 			return fmt.Errorf("error renaming account file: %w", err)
 		}
 
